@@ -103,6 +103,13 @@ func c20Scenario(c *Ctx, name string, oneZone bool, T int, payloadLen int, prolo
 				env.NewFaultStore().Register("fault://c20")
 			}
 			e := getEnv(cfg, envKey)
+			for _, th := range threads {
+				if th.Reload {
+					// a reload publishes registry entries with sync.Map.Store: the moment right after each Store is a
+					// scheduling point too, so that a request can meet an entry its publisher has not finished with
+					vsched.PostStorePoints = true
+				}
+			}
 			// restore the initial configuration (a previous execution may have reloaded)
 			compress.Reset(cfg.Compresses)
 			location.Reset(cfg.Locations)
